@@ -57,7 +57,7 @@ func c28Scenario(a, b string) *sched.Scenario {
 		}
 		fin := func(e *vsched.Execution) sched.Outcome {
 			o := sched.Outcome{Key: fmt.Sprintf("a:%q/%d b:%q/%d", ra.Out, ra.Exit, rb.Out, rb.Exit), NonTrivial: true}
-			if e.Deadlock || len(e.Panics) > 0 {
+			if e.Deadlock || e.Livelock || len(e.Panics) > 0 {
 				return o
 			}
 			if viol != "" {
